@@ -58,6 +58,11 @@ ProofSize(c, k) ==
 \* point and the mix of their degree-bound / hiding settings do not enter (a hiding member adds the one scalar)
 BatchSize(c, npoints) == Plus(U(0, 0, 0, 1, 0, 0), Times(npoints, ProofSize(c, c.k)))
 
+\* linear-combination proofs of the trait-default path (Hyrax, linear codes): the batch proof over the
+\* (polynomial, point) pairs the combinations NEED plus one transmitted evaluation per such pair.  Two combinations over
+\* disjoint halves of the k polynomials, queried at two different points, need k pairs (not 2k).
+LcEvals(c) == c.k
+
 \* ---------------------------------------------------------------- linear codes
 \* modelled proof for a matrix with `rows` rows over N coefficients, t opened columns, tree depth h
 PathSize(h) == U(0, 0, 0, 3 + h, 0, 32 + 32 * h)      \* leaf sibling (len + 32), auth path (len + h x (len? no: 32)), index
@@ -118,6 +123,7 @@ HyraxSquareRoot == c.s = "hyrax" => CommSize(c).g * CommSize(c).g = Pow2(c.nv)
 
 Dump == done => PrintT(<<"DUMP", ToJson([cfg |-> c, comm |-> CommSize(c), proof |-> ProofSize(c, c.k),
                                          batch2 |-> BatchSize(c, 2),
+                                         lc_evals |-> LcEvals(c),
                                          lin |-> LinCode,
                                          lin_best |-> IF LinCode THEN BestLin(c.s, NCoeffs) ELSE 0,
                                          lin_shapes |-> IF LinCode THEN LinShapes(c.s, NCoeffs) ELSE {},
